@@ -252,10 +252,38 @@ fn hyphenate_impl(hyphenater: &Hyphenator, list: &[ds::Horizontal]) -> Vec<ds::H
         };
         let mut next_or = indices.next();
 
+        // TeX.2021.903: the word is rebuilt with left boundary processing only if the left
+        // boundary took part in the typesetting of its first node (`goto found2`, or `ha` is a
+        // boundary ligature without original characters). Otherwise reconstitution starts at
+        // the first letter (`j:=1`) and whatever precedes the word stays as it is.
+        // The font kerns and the ligatures without original characters directly before the
+        // word have already been copied to the output. If the left boundary produced them they
+        // are removed again here, because the boundary run below produces them a second time.
+        let rebuild_from_left_boundary = {
+            let mut includes_left_boundary = matches!(
+                list.get(hyphenation_start_i),
+                Some(ds::Horizontal::Ligature(ligature)) if ligature.includes_left_boundary
+            );
+            let mut k = out.len();
+            while let Some(elem) = k.checked_sub(1).and_then(|k| out.get(k)) {
+                match elem {
+                    ds::Horizontal::Kern(kern) if matches!(kern.kind, ds::KernKind::Normal) => {}
+                    ds::Horizontal::Ligature(ligature) if ligature.original_chars.is_empty() => {
+                        includes_left_boundary |= ligature.includes_left_boundary;
+                    }
+                    _ => break,
+                }
+                k -= 1;
+            }
+            if includes_left_boundary {
+                out.truncate(k);
+            }
+            includes_left_boundary
+        };
         let mut main_iter = hyphenater.lig_kern_program.run_with_options(
             s.chars(),
             RunOptions {
-                disable_left_boundary: false,
+                disable_left_boundary: !rebuild_from_left_boundary,
                 right_boundary_override,
             },
         );
